@@ -338,6 +338,14 @@ impl<D: DependencyProvider, RT: AsyncRuntime> Solver<D, RT> {
                 .assigned_value(additional_var)
                 .is_none()
             {
+                // A soft requirement is requested directly instead of through a
+                // version set, so it has to be registered as a candidate of its
+                // package here. Otherwise nothing forbids it from being selected
+                // next to another solvable of the same package.
+                let name_id = self.provider().solvable_name(additional);
+                self.state
+                    .add_forbid_multiple_clauses(name_id, additional_var);
+
                 self.run_sat(additional.into(), &root_dependencies)?;
             }
         }
@@ -1436,6 +1444,35 @@ impl<D: DependencyProvider, RT: AsyncRuntime> Solver<D, RT> {
 }
 
 impl SolverState {
+    /// Registers `variable` as a candidate of the package `name_id` and adds
+    /// the clauses that forbid it from being selected together with any other
+    /// candidate of that package that was registered before.
+    pub(crate) fn add_forbid_multiple_clauses(&mut self, name_id: NameId, variable: VariableId) {
+        let SolverState {
+            forbidden_clauses_added,
+            clauses,
+            watches,
+            variable_map,
+            ..
+        } = self;
+        forbidden_clauses_added.entry(name_id).or_default().add(
+            variable,
+            |a, b, positive| {
+                let (watched_literals, kind) = WatchedLiterals::forbid_multiple(
+                    a,
+                    if positive { b.positive() } else { b.negative() },
+                    name_id,
+                );
+                let clause_id = clauses.alloc(watched_literals, kind);
+                let watched_literals = clauses.watched_literals[clause_id.to_usize()]
+                    .as_mut()
+                    .expect("forbid clause must have watched literals");
+                watches.start_watching(watched_literals, clause_id);
+            },
+            || variable_map.alloc_forbid_multiple_variable(name_id),
+        );
+    }
+
     /// Returns the solvables that the solver has chosen to include in the
     /// solution so far.
     fn chosen_solvables(&self) -> impl Iterator<Item = SolvableId> + '_ {
